@@ -12,6 +12,8 @@ import (
 	"github.com/256dpi/gomqtt/packet"
 )
 
+var _ = packet.NewPuback
+
 type step struct {
 	kind string // in | inerr | deq | ack | ackall | close | settle | reconnect
 	pkt  packet.Generic
@@ -35,8 +37,9 @@ type scenario struct {
 	failCall     map[string]int
 	resumed      bool // what Setup reports on the first connection
 	steps        []step
-	noSettle     bool // pipelined: do not wait between steps
-	closeOnRx    int  // Client.Close() is called from outside after the n-th packet was read, before it is handled
+	noSettle     bool   // pipelined: do not wait between steps
+	closeOnRx    int    // Client.Close() is called from outside after the n-th packet was read, before it is handled
+	react        string // reactive subscriber: acknowledges what it actually receives: immediate | batched | reverse | slow
 }
 
 func (sc *scenario) text() string {
@@ -53,8 +56,8 @@ func (sc *scenario) text() string {
 			parts = append(parts, st.kind)
 		}
 	}
-	return fmt.Sprintf("%s/%s mode=%d w=%d fs=%v ff=%v fsess=%v fcall=%v cor=%d [%s]", sc.family, sc.name, sc.mode, sc.w, sc.failSend, sc.failFrom,
-		sc.failSess, sc.failCall, sc.closeOnRx, strings.Join(parts, " "))
+	return fmt.Sprintf("%s/%s mode=%d w=%d fs=%v ff=%v fsess=%v fcall=%v cor=%d react=%s [%s]", sc.family, sc.name, sc.mode, sc.w, sc.failSend, sc.failFrom,
+		sc.failSess, sc.failCall, sc.closeOnRx, sc.react, strings.Join(parts, " "))
 }
 
 type result struct {
@@ -148,6 +151,67 @@ func runScenario(sc *scenario) *result {
 			}
 		}
 	}
+	acked := map[int]bool{} // ids fully acknowledged by the reactive peer (per connection)
+	recd := map[int]bool{}  // ids for which PUBREC was sent
+	reactOnce := func() bool {
+		if sc.react == "" {
+			return false
+		}
+		var pend []*packet.Publish
+		var rels []int
+		for _, p := range conn.sentCopy() {
+			switch v := p.(type) {
+			case *packet.Publish:
+				if v.Message.QOS > 0 && !acked[int(v.ID)] && !recd[int(v.ID)] {
+					dupSeen := false
+					for _, q := range pend {
+						if q.ID == v.ID {
+							dupSeen = true
+						}
+					}
+					if !dupSeen {
+						pend = append(pend, v)
+					}
+				}
+			case *packet.Pubrel:
+				if !acked[int(v.ID)] {
+					rels = append(rels, int(v.ID))
+				}
+			}
+		}
+		did := false
+		for _, id := range rels {
+			acked[id] = true
+			conn.feed(&packet.Pubcomp{ID: packet.ID(id)})
+			did = true
+		}
+		w := sc.w
+		if w == 0 {
+			w = 10
+		}
+		if len(pend) == 0 || ((sc.react == "batched" || sc.react == "reverse") && len(pend) < w && len(b.queue) > 0) {
+			return did
+		}
+		if sc.react == "reverse" {
+			for a, z := 0, len(pend)-1; a < z; a, z = a+1, z-1 {
+				pend[a], pend[z] = pend[z], pend[a]
+			}
+		}
+		if sc.react == "slow" {
+			pend = pend[:1]
+		}
+		for _, v := range pend {
+			if v.Message.QOS == 1 {
+				acked[int(v.ID)] = true
+				conn.feed(&packet.Puback{ID: v.ID})
+			} else {
+				recd[int(v.ID)] = true
+				conn.feed(&packet.Pubrec{ID: v.ID})
+			}
+			did = true
+		}
+		return did
+	}
 	open()
 	idle := func() bool { return conn.consumed() && (len(b.queue) == 0 || conn.consumedClosed()) }
 	for _, st := range sc.steps {
@@ -175,13 +239,25 @@ func runScenario(sc *scenario) *result {
 			finish()
 			b.resumed = st.resumed
 			b.fresh = st.fresh
+			acked, recd = map[int]bool{}, map[int]bool{}
 			open()
+		case "drain":
+			// the reactive peer keeps acknowledging until nothing is left to acknowledge
+			for i := 0; i < 400; i++ {
+				l.settle(idle, settleQuiet, settleBlocked, settleMax)
+				if !reactOnce() {
+					break
+				}
+			}
 		}
 		if st.kind == "settle" {
 			time.Sleep(2 * settleBlocked)
 		}
 		if !sc.noSettle || st.kind == "settle" {
 			l.settle(idle, settleQuiet, settleBlocked, settleMax)
+		}
+		if sc.react != "" && st.kind == "deq" {
+			reactOnce()
 		}
 	}
 	l.settle(idle, settleQuiet, settleBlocked, settleMax)
